@@ -28,6 +28,7 @@ var alphabet = []string{
 	"@{exec_path} = @{b}/bin",
 	"@{exec_path} += /opt/q",
 	"@{exec_path} = /bin/e @{a}/e",
+	"@{exec_path} = @{a}/e@{b}",
 	"@{s} = @{s}/x",
 	"@{u} = @{undef}",
 	"@{a} = /second",
